@@ -117,9 +117,10 @@ type Config struct {
 }
 
 type Explorer struct {
-	In    *Interp
-	Cfg   Config
-	Stats Stats
+	In       *Interp
+	Cfg      Config
+	Stats    Stats
+	unknowns int
 }
 
 func (r *runState) uniq(name string) string {
@@ -429,6 +430,7 @@ func (in *Interp) obligation(fr *frame, cond value, label string, finding string
 			violated = true
 		case Unsat:
 		default:
+			in.exp.unknowns++
 			in.noteInconclusive(fmt.Sprintf("obligation %s: solver %s (%s)", label, res, in.Solver.LastError))
 		}
 		// B: the known finding itself
@@ -445,6 +447,7 @@ func (in *Interp) obligation(fr *frame, cond value, label string, finding string
 			}
 			violated = true
 		} else if resB != Unsat {
+			in.exp.unknowns++
 			in.noteInconclusive(fmt.Sprintf("obligation %s (finding part): solver %s", label, resB))
 		}
 		if !violated && res == Unsat && resB == Unsat {
@@ -459,6 +462,7 @@ func (in *Interp) obligation(fr *frame, cond value, label string, finding string
 		case Unsat:
 			st.Discharged++
 		default:
+			in.exp.unknowns++
 			in.noteInconclusive(fmt.Sprintf("obligation %s: solver %s (%s)", label, res, in.Solver.LastError))
 		}
 	}
@@ -496,6 +500,10 @@ func (e *Explorer) Explore(fn *ssa.Function) {
 	for {
 		if e.Cfg.MaxPaths > 0 && e.Stats.Paths >= e.Cfg.MaxPaths {
 			in.noteInconclusive(fmt.Sprintf("path budget %d exhausted", e.Cfg.MaxPaths))
+			break
+		}
+		if e.unknowns >= 3 {
+			in.noteInconclusive("exploration of this instance stopped after 3 undecided obligations")
 			break
 		}
 		if in.Solver.Dead {
